@@ -116,6 +116,12 @@ def build_case(r: random.Random, idx: int, tier: str, forced=None):
     established_before = crash in ('batch', 'steady')
     announced = list(before) if established_before else []
     withdrawn = []
+    flush_first = resync == 'flush-while-down' and r.random() < 0.6
+    if flush_first:
+        # the flush comes BEFORE the other operations issued while down: what it queued for re-sending must still follow them
+        steps.append(['api', 'rib flush out'])
+        if down_ops in ('none', 'announce') and announced:
+            down_ops = 'withdraw' if down_ops == 'none' else 'both'
     if down_ops in ('announce', 'both'):
         extra = [api_route(100 + j) for j in range(3)]
         for (p, nh, m) in extra:
@@ -127,7 +133,7 @@ def build_case(r: random.Random, idx: int, tier: str, forced=None):
             steps.append(['api', f'peer * withdraw route {p} next-hop {nh}'])
         withdrawn = victims
         announced = [x for x in announced if x not in victims]
-    if resync == 'flush-while-down':
+    if resync == 'flush-while-down' and not flush_first:
         steps.append(['api', 'rib flush out'])
     steps += [['sleep', 0.2], ['accept', 60.0], ['mark', 'second-session'], ['establish']]
     late = []
@@ -296,7 +302,7 @@ def run_shard(desc):
     forced_list = [(c, l) for c in ('batch', 'after-our-open', 'after-peer-open', 'after-keepalive', 'steady') for l in ('eof', 'rst', 'notification', 'hold')]
     forced_list += [('steady', 'eof', 'reload-neighbor-change', 'none'), ('steady', 'rst', 'reload-neighbor-change', 'api-during-batch'), ('batch', 'eof', 'none', 'refresh+api'), ('steady', 'notification', 'none', 'refresh+api'),
                     ('batch', 'rst', 'none', 'none', False), ('steady', 'eof', 'none', 'api-during-batch', False), ('steady', 'notification', 'reload-neighbor-change', 'none', False),
-                    ('batch', 'rst', 'none', 'refresh-at-start'), ('steady', 'eof', 'none', 'api-during-batch'), ('batch', 'eof', 'none', 'flush-while-down'), ('steady', 'hold', 'reload-neighbor-change', 'refresh+api')]
+                    ('batch', 'rst', 'none', 'refresh-at-start'), ('steady', 'eof', 'none', 'api-during-batch'), ('batch', 'eof', 'none', 'flush-while-down'), ('steady', 'rst', 'none', 'flush-while-down'), ('steady', 'eof', 'none', 'flush-while-down'), ('steady', 'hold', 'reload-neighbor-change', 'refresh+api')]
     for i in range(desc['cases']):
         forced = None
         gi = desc['shard'] * desc['cases'] + i
